@@ -649,11 +649,12 @@ const (
 	DefUnbalanced
 	DefTruncate
 	DefBadByte
+	DefWrongCloser
 	defCount
 )
 
 var defNames = [...]string{"ctrl-in-string", "unterminated-string", "missing-comma", "extra-comma", "missing-colon", "bad-atom",
-	"leading-zero", "lone-minus", "trailing-garbage", "unbalanced", "truncate", "bad-byte"}
+	"leading-zero", "lone-minus", "trailing-garbage", "unbalanced", "truncate", "bad-byte", "wrong-closer"}
 
 // pickSite returns the offset of a site of one of the kinds, chosen by position class
 // (0 first part, 1 middle, 2 last part, 3 anywhere); -1 if there is none.
@@ -764,6 +765,22 @@ func ApplyDefect(c *Chooser, d Doc, kind, posClass int) []byte {
 				return del(o, 1)
 			}
 			return ins(o, string(b[o]))
+		}
+	case DefWrongCloser:
+		// a container closed (or opened) with the other kind of bracket: balanced in number, wrong in kind
+		if o := pickSite(c, d, posClass, siteClose, siteClose, siteOpen); o >= 0 {
+			out := append([]byte(nil), b...)
+			switch out[o] {
+			case ']':
+				out[o] = '}'
+			case '}':
+				out[o] = ']'
+			case '[':
+				out[o] = '{'
+			case '{':
+				out[o] = '['
+			}
+			return out
 		}
 	case DefTruncate:
 		return append([]byte(nil), b[:anyOff()]...)
